@@ -53,6 +53,7 @@ fn file_of(k: &Key) -> std::path::PathBuf {
 // ------------------------------------------------------------------ C10
 
 fn c10_put_step() {
+    pin_self_reference();
     let cap = 1 + choice(3);
     let n_held = choice(cap + 1);
     let mut w = World::new(cap, 4);
@@ -107,6 +108,7 @@ fn c10_put_step() {
 }
 
 fn c10_burst() {
+    pin_self_reference();
     let cap = 1 + choice(2);
     let mut w = World::new(cap, 4);
     w.settle();
@@ -245,6 +247,7 @@ fn ruint_pow2(n: usize) -> ruint::aliases::U256 {
 }
 
 fn c10_metrics() {
+    pin_self_reference();
     let cap = 2 + choice(2);
     let n_held = choice(3) + 1;
     let n_held = n_held.min(cap);
@@ -508,6 +511,7 @@ fn c01_history() {
 // ------------------------------------------------------------------ C02
 
 fn c02_crash() {
+    pin_self_reference();
     let n_keys = env_usize("C02_KEYS", 2);
     let n_ops = env_usize("C02_OPS", 2);
     let mut w = World::new(100, 2);
